@@ -59,6 +59,7 @@ type readRec struct {
 type writeRec struct {
 	// big cases only (k = "wb"): the implementation reads its own bytes back
 	BackOK bool     `json:"back_ok,omitempty"`
+	BackVb []string `json:"back_vb,omitempty"` // strings: what the reader returned (compared with NFC(input) by the orchestration)
 	K      string   `json:"k"`
 	Op     int      `json:"op"`
 	Fn     int      `json:"fn"`
@@ -318,7 +319,11 @@ var boundaryU = []uint64{0, 1, 2, 127, 128, 129, 255, 256, 16383, 16384, 1<<21 -
 var boundaryI = []int64{0, 1, -1, 2, -2, 63, 64, -64, -65, 1<<31 - 1, -1 << 31, 1 << 31, -1<<31 - 1, 1<<62 - 1, 1 << 62, -1 << 62, 1<<63 - 1, -1<<63 + 1, -1 << 63}
 
 // strings whose NFC status the model decides (coq/Codec/Str.v): code points < U+0300, and the table entries
-var knownStrings = []string{"", "a", "token", "transfer", "\x00", "\x7f", "caf\u00e9", "\u00c5\u00f6", "\u02ff", "e\u0301", "A\u030a", "\u212b", "abo\u0308"}
+var knownStrings = []string{"", "a", "token", "transfer", "\x00", "\x7f", "caf\u00e9", "\u00c5\u00f6", "\u02ff", "e\u0301", "A\u030a", "\u212b", "abo\u0308",
+	// NFC-normal although they contain quick-check "Maybe" runes (non-composing combining marks, lone Hangul jamo)
+	"q\u0301", "x\u0323\u0301", "a\u0338", "\u1161", "\u11a8", "\uac00",
+	// their non-NFC counterparts (must be normalised on write, rejected on read)
+	"x\u0301\u0323", "\u1100\u1161"}
 
 func genPrim(o *hx.Out, rng *hx.Rng, exh, nrand int, big bool) {
 	// (a) exhaustive short byte strings over the boundary alphabet + both keys of field 1
@@ -474,12 +479,20 @@ func genPrim(o *hx.Out, rng *hx.Rng, exh, nrand int, big bool) {
 		w := runWrite(op, fn, vz, vb)
 		w.K = "wb"
 		w.BackOK = readBack(op, fn, w)
+		if op == opString || op == opStrings {
+			d, _ := hex.DecodeString(w.Out)
+			w.BackVb = runRead(op, fn, true, d, 0, int64(len(d))).Vb
+		}
 		o.Put(w)
 	}
 	for _, v := range boundaryU {
 		rt(opUInt, 1, []string{cx.U(v)}, nil)
 		rt(opUInt32, 1, []string{cx.U(uint64(uint32(v)))}, nil)
 		rt(opUInts, 1, []string{cx.U(v), cx.U(v)}, nil)
+	}
+	for _, str := range knownStrings { // strings: the reader must accept what the writer emitted (NFC-normalised)
+		rt(opString, 1, nil, []string{hex.EncodeToString([]byte(str))})
+		rt(opStrings, 2, nil, []string{hex.EncodeToString([]byte(str)), hex.EncodeToString([]byte("a"))})
 	}
 	for _, v := range boundaryI {
 		rt(opInt, 1, []string{cx.I(v)}, nil)
@@ -633,6 +646,9 @@ func readBack(op, fn int, w writeRec) bool {
 		if r.Vz[i] != w.Vz[i] {
 			return false
 		}
+	}
+	if op == opString || op == opStrings {
+		return true // values are compared with the independently normalised input by the orchestration (BackVb)
 	}
 	for i := range r.Vb {
 		if r.Vb[i] != w.Vb[i] {
